@@ -24,7 +24,7 @@ ASSUMPTIONS = [
     "CPython ast parses /repo's source as the interpreter would",
     "classification of netlist cells into combinational / sequential / sources, frozen in sa/rules/c06.py",
 ]
-MIN_INSTANCES = {"R-06a": 2, "R-06b": 2, "R-06c": 4, "R-06d": 40, "R-06e": 1}
+MIN_INSTANCES = {"R-06f": 1, "R-06a": 2, "R-06b": 2, "R-06c": 4, "R-06d": 40, "R-06e": 1}
 
 # cell class -> ('comb', attrs that must all be comb inputs) | ('seq', control attrs allowed) | ('none',)
 CELL_KIND = {
@@ -512,4 +512,29 @@ def r06e(model, ctx):
               f"module; guards found: {sorted(map(repr, conds))}", f"{IR}:{fd.lineno}")
 
 
-RULES = [("R-06a", r06a), ("R-06b", r06b), ("R-06c", r06c), ("R-06d", r06d), ("R-06e", r06e)]
+def r06f(model, ctx):
+    """emit_drivers' whole-signal shortcut: a single (module, domain) driver may claim every bit of the signal only when NO
+    net of the signal is connected yet (an Instance / read port / I/O buffer output may already drive some of them)"""
+    from ..engine.bitalg import quantifier_norm
+    R = "R-06f"
+    fd = model.func_view(f"{IR}::NetlistEmitter.emit_drivers", depth=3)
+    hits = []
+    for st in ast.walk(fd):
+        if isinstance(st, ast.If) and any(isinstance(x, ast.Assign) and unparse(x.targets[0]) == "driver_mask" and
+                                          "(1 << len(sig)) - 1" in unparse(x.value) for x in st.body):
+            hits.append(st)
+    need(len(hits) == 1, "emit_drivers: the whole-signal shortcut (driver_mask = all ones) was not found")
+    test = hits[0].test
+    conj = test.values if isinstance(test, ast.BoolOp) and isinstance(test.op, ast.And) else [test]
+    quants = [quantifier_norm(c) for c in conj]
+    want = quantifier_norm(ast.parse("all(net not in self.netlist.connections for net in lhs)", mode="eval").body)
+    single = any(unparse(c) == "len(sig_drivers) == 1" for c in conj)
+    ok = single and want in quants and len(conj) == 2
+    ctx.check(ok, R, "emit_drivers:whole-signal-shortcut", "taken only for a single driver and when no net of the signal is connected yet",
+              f"the shortcut that lets one driver claim the whole signal must require `len(sig_drivers) == 1 and all(net not in "
+              f"connections for net in lhs)`; found `{unparse(test)}`: with a weaker test a signal partly driven by an instance or "
+              f"memory output is claimed entirely and a legal design is rejected with DriverConflict (or a conflict is missed)",
+              f"{IR}:{hits[0].lineno}")
+
+
+RULES = [("R-06f", r06f), ("R-06a", r06a), ("R-06b", r06b), ("R-06c", r06c), ("R-06d", r06d), ("R-06e", r06e)]
